@@ -6,10 +6,13 @@ ASSUME \A s \in TShapes : ((s.signed => s.n >= 1) /\ ~(s.n = 0 /\ s.unit = "")) 
 \* "idleAfterSend": the handler has sent a reply and waits on its context (a subscription); lateend: the request body of
 \* a raw HTTP/1.1 client is chunked and its terminating chunk arrives only after the handler has read the message
 ASSUME \A sh \in {"unary", "cstream", "sstream", "bidi"}, pt \in {"running", "blockedRecv", "blockedFirstRecv", "blockedSend", "returned", "idleAfterSend"},
-          cl \in Clients, le \in BOOLEAN, gz \in BOOLEAN :
+          cl \in Clients, le \in BOOLEAN, gz \in BOOLEAN, vv \in {"local", "proxied"} :
          (le => (cl # "grpc-cancel" /\ sh \in {"unary", "sstream"})) /\ (pt = "idleAfterSend" => sh \in {"sstream", "bidi"}) /\ (pt = "blockedFirstRecv" => sh \in {"cstream", "bidi"})
          \* gzip: the upload of a plain HTTP client is Content-Encoding: gzip and breaks off inside the gzip stream
-         /\ (gz => (cl = "http-disconnect" /\ pt = "blockedFirstRecv" /\ ~le))
-           => PrintT(<<"SCHED", ToJson([shape |-> sh, point |-> pt, client |-> cl, lateend |-> le, gzip |-> gz])>>)
+         /\ (gz => (cl = "http-disconnect" /\ pt = "blockedFirstRecv" /\ ~le /\ vv = "local"))
+         \* proxied: the handler runs on a backend behind RegisterConn (the forwarder opens the backend stream only
+         \* after the first client message - F31 - so a first receive that blocks is not reachable there)
+         /\ (vv = "proxied" => pt # "blockedFirstRecv")
+           => PrintT(<<"SCHED", ToJson([shape |-> sh, point |-> pt, client |-> cl, lateend |-> le, gzip |-> gz, via |-> vv])>>)
 NoPoints == {}
 =============================================================================
